@@ -51,7 +51,12 @@ def run(chk, replay=None):
             if quick:
                 nests = nests[(0 if flavour == "ne" else 1)::2]
             chk.add("loopnest_programs", len(nests))
-            pairs = harness_pairs(chk, progs + blocks + nests, flavour)
+            # systematic conditional chains with exits to every interesting place
+            chains = gen_progs.chain_programs(cfg, start_id=200001)
+            if quick:
+                chains = chains[(0 if flavour == "ne" else 1)::2]
+            chk.add("chain_programs", len(chains))
+            pairs = harness_pairs(chk, progs + blocks + nests + chains, flavour)
         chk.add("programs", len(pairs))
         chk.add("disagreements_checked", sum(1 for p in pairs if p.get("changed")))
         cov = lib.product_check(chk, "ProductDecomp", tcfg, pairs, "c07_" + flavour, timeout=900 if quick else 3000)
